@@ -449,6 +449,17 @@ impl Prop for C07 {
             add("named-bits", "Bts", nb_prelude, format!("{{ {} }}", names.join(", ")), Val::NamedBits(bits), format!("n={}", chosen.len().min(3)));
         }
         add("bstring:bits", "Bts", nb_prelude, "'101'B".into(), Val::Bits(vec![true, false, true]), "bstring-of-named-bit-type".into());
+        // the same bits declared in a non-ascending order (the highest bit is neither first nor last)
+        let nb_prelude2 = "Bts ::= BIT STRING { b7(7), b1(1), b15(15), b0(0), b3(3) }";
+        for mask in 0u32..32 {
+            let chosen: Vec<&(&str, usize)> = nb.iter().enumerate().filter(|(i, _)| mask & (1 << i) != 0).map(|(_, x)| x).collect();
+            let mut bits = vec![false; 16];
+            for (_, p) in &chosen {
+                bits[*p] = true;
+            }
+            let names: Vec<&str> = chosen.iter().rev().map(|(n, _)| *n).collect();
+            add("named-bits", "Bts", nb_prelude2, format!("{{ {} }}", names.join(", ")), Val::NamedBits(bits), format!("unordered-declaration:n={}", chosen.len().min(3)));
+        }
         // ---- OIDs
         let roots: Vec<(&str, u32)> = vec![("itu-t", 0), ("ccitt", 0), ("iso", 1), ("joint-iso-itu-t", 2), ("joint-iso-ccitt", 2), ("0", 0), ("1", 1), ("2", 2), ("iso(1)", 1), ("itu-t(0)", 0), ("joint-iso-itu-t(2)", 2)];
         let second_itu: Vec<(&str, u32)> = vec![("recommendation", 0), ("question", 1), ("administration", 2), ("network-operator", 3), ("identified-organization", 4), ("r-recommendation", 5)];
